@@ -217,6 +217,22 @@ def run_schedules(ctx, scheds, tag="m", race=False, free=False, timeout=1500, wo
 def validate(ctx, rows, convs=(), world=None):
     """TLC trace validation.  Returns (fails, nonconfs, consumed)."""
     good = [r for r in rows if r.get("st") is not None]
+    # a Go nil slice is written as JSON null (an observation that failed half-way leaves some): TLC's reader knows no null.
+    # The row says that the observation failed (obs.err), which is what gets judged.
+    nulls = []
+
+    def denull(x, where):
+        if isinstance(x, dict):
+            return {k: denull(v, where + "." + k) for k, v in x.items()}
+        if isinstance(x, list):
+            return [denull(v, where) for v in x]
+        if x is None:
+            nulls.append(where)
+            return []
+        return x
+    good = [denull(r, "row") for r in good]
+    if nulls and not any(r.get("obs", {}).get("err") for r in good):
+        raise Infra("null values in a trace without a failed observation: %s" % sorted(set(nulls))[:5])
     path = os.path.join(ctx.scratch, "manager_trace.ndjson")
     write_ndjson(path, good)
     cfg = os.path.join(ctx.scratch, "ManagerTrace_run.cfg")
@@ -518,6 +534,13 @@ def evaluate(ctx, pid, scheds, rows, crashes, states, trans, mc_notes, convs=(),
     for f in gone:
         f["what"] = "C13.ServedFileGone"
         f["info"] = ""
+    # the directory listing lacks a file the service still serves from: deleted while in use (C13)
+    row_of = {(r["sid"], r["n"]): r for r in list(base_rows) + [x for e in extra for x in e[2]]}
+    for f in [f for f in fails if f["what"] == "dir-listing-differs"]:
+        r = row_of.get((f["sid"], f["n"]))
+        if r and r.get("st") and set(r["st"]["indexes"]) - set(r["obs"].get("dir") or []):
+            f["what"] = "C13.ServedFileGone"
+            f["info"] = ""
     infra_fail = [f for f in fails if f["what"] in ("obs-error", "dir-listing-differs")]
     if infra_fail:
         raise Infra("observation failed: %s" % infra_fail[0])
